@@ -86,7 +86,21 @@ class Report:
         (unknown values flow through the shape fixpoint), such verdicts are withheld and
         reported as UNDECIDED with the idiom that has to be modelled first."""
         eng = self.ctx._cache.get("e3") if self.ctx is not None else None
-        if eng is None or not eng.incomplete:
+        if eng is None:
+            return
+        partial = getattr(eng, "partial", [])
+        needs_all = getattr(self, "needs_all_runs", set())
+        if partial:
+            # runs cut short leave paths out: only verdicts that rest on *all* paths being there
+            # (a rule being dead, a value never being produced) are withheld
+            for o in self.obs:
+                if o.status == VIOLATED and o.engine and o.rule in needs_all:
+                    o.status = UNDECIDED
+                    o.detail = "verdict withheld, a run of the rule-base analysis was cut short [{}]; candidate: {}".format(
+                        partial[0], o.detail)
+                    o.witness = None
+                    self.withheld += 1
+        if not eng.incomplete:
             return
         why = eng.incomplete[0]
         if len(eng.incomplete) > 1:
